@@ -15,6 +15,7 @@ import (
 	"sort"
 	"strings"
 	"sync/atomic"
+	"syscall"
 	"time"
 )
 
@@ -36,7 +37,12 @@ type Property struct {
 	DeathIsViolation bool // a worker death on a journaled case counts as a violation
 	Variants         []Variant
 	MinNontrivial    int // floor of distinct non-trivial cases in quick tier; below ⇒ inconclusive
-	Run              func(c *Ctx)
+	// CaseCPUSeconds: a single case that consumes more process CPU time than
+	// this (default 120 s, i.e. >= 10^4 times the cost of any case on the
+	// unchanged tree) is reported as a violation of monitor "terminates".
+	// CPU time, not wall-clock: it does not depend on machine load.
+	CaseCPUSeconds int
+	Run            func(c *Ctx)
 	// Classify death: optional class name for a worker death on a case
 	RequiredMonitors []string // monitors that must have observed ≥1 check, else inconclusive
 }
@@ -493,6 +499,14 @@ func journalPath(root, prop, variant string, shard int) string {
 	return filepath.Join(workDir(root, prop), fmt.Sprintf("journal-%s-%d.txt", variant, shard))
 }
 
+func cpuTime() time.Duration {
+	var ru syscall.Rusage
+	if err := syscall.Getrusage(syscall.RUSAGE_SELF, &ru); err != nil {
+		return 0
+	}
+	return time.Duration(ru.Utime.Nano() + ru.Stime.Nano())
+}
+
 // NewStandaloneK returns a case context that is not attached to a worker (no
 // journal, no result file); used by fuzz targets that reuse the monitors.
 func NewStandaloneK(p *Property, stream string) *K {
@@ -525,15 +539,30 @@ func WorkerMain(root string, p *Property, tier string, seed uint64, variant stri
 	c.current.Store("")
 	// stuck-case watchdog: a single case running for more than 10 minutes is
 	// reported (inconclusive), never judged.
+	budget := time.Duration(p.CaseCPUSeconds) * time.Second
+	if budget == 0 {
+		budget = 120 * time.Second
+	}
 	go func() {
+		lastID, cpuAtStart := "", cpuTime()
 		for {
-			time.Sleep(5 * time.Second)
+			time.Sleep(2 * time.Second)
 			id, _ := c.current.Load().(string)
+			if id != lastID {
+				lastID, cpuAtStart = id, cpuTime()
+			}
 			if id == "" {
 				continue
 			}
-			if time.Since(time.Unix(0, c.curStart.Load())) > 10*time.Minute {
-				fmt.Fprintf(os.Stderr, "STUCK case %s (>10min)\n", id)
+			if used := cpuTime() - cpuAtStart; used > budget {
+				fmt.Fprintf(os.Stderr, "CPU-BUDGET case %s consumed %v of CPU time (budget %v)\n", id, used, budget)
+				buf := make([]byte, 1<<16)
+				n := runtime.Stack(buf, true)
+				os.Stderr.Write(buf[:n])
+				os.Exit(5)
+			}
+			if time.Since(time.Unix(0, c.curStart.Load())) > 30*time.Minute {
+				fmt.Fprintf(os.Stderr, "STUCK case %s (>30min wall-clock)\n", id)
 				buf := make([]byte, 1<<16)
 				n := runtime.Stack(buf, true)
 				os.Stderr.Write(buf[:n])
